@@ -326,4 +326,27 @@ theorem C27_isinstance (h : Hier) (hw : h.wf) (hd : h.distinct) (sameRoot : Nat 
         have := hpy.2 (k.1 hcon)
         rw [hv] at this; exact absurd this (by simp)
 
+/-! ### the diamond: iterating one branch, testing against the sibling branch -/
+
+/-- Person(0) ← Student(1), Teacher(2) ← Assistant(3 : Student, Teacher), discriminators 0..3 -/
+def diamond : Hier := { n := 4, bases := fun i => if i = 0 then [] else if i = 3 then [1, 2] else [0], discr := fun i => i }
+
+/-- `select(s for s in Student if isinstance(s, Teacher))`: Teacher is neither an ancestor nor a descendant of Student, yet the condition
+    is not constant — it selects the rows of the common subclass Assistant -/
+theorem C27_isinstance_diamond_sibling :
+    diamond.isinstanceSql (fun _ => true) 1 [2] = .discrIn [3] ∧
+    evalCond (diamond.isinstanceSql (fun _ => true) 1 [2]) (diamond.discr 3) = true ∧
+    evalCond (diamond.isinstanceSql (fun _ => true) 1 [2]) (diamond.discr 1) = false := by
+  decide
+
+/-- the class filter has to be the ROOT test: a filter that keeps only ancestors and descendants of the iterated entity (so that it rejects
+    the sibling branch) makes the condition constant false, while the Assistant row IS an instance of Teacher — the hypothesis `hroot` of
+    C27_isinstance cannot be weakened to relatedness -/
+theorem C27_isinstance_related_filter_false :
+    ¬ (∀ (h : Hier) (e r : Nat) (classes : List Nat), e < h.n → r < h.n → h.isSub r e = true → (∀ c ∈ classes, c < h.n) →
+        evalCond (h.isinstanceSql (fun c => h.isSub c e || h.isSub e c) e classes) (h.discr r) = classes.any (fun c => h.isSub r c)) := by
+  intro hf
+  have := hf diamond 1 3 [2] (by decide) (by decide) (by decide) (by decide)
+  revert this; decide
+
 end PonyVerif.Props.C27
